@@ -254,21 +254,63 @@ theorem mod10_cases (g : Nat) : g % 10 = 0 ∨ g % 10 = 1 ∨ g % 10 = 2 ∨ g %
 theorem gapOK_sp (care : Bool) : GapOK care [32] := ws_space care 32 (by decide) (by decide)
 theorem gapOK_tab (care : Bool) : GapOK care [9] := ws_space care 9 (by decide) (by decide)
 
-theorem gapOK_c4 (care : Bool) : GapOK care [47,42,99,42,47] := by intro tail; simp [wsGo, bump]
-theorem gapOK_c7 (care : Bool) : GapOK care [47,42,42,47] := by intro tail; simp [wsGo, bump]
+theorem ws_open_block (care : Bool) (rest : Bytes) : wsGo care .norm (47 :: 42 :: rest) = bump 2 (wsGo care .block rest) := by
+  have : isSpaceC 47 = false := by decide
+  simp [wsGo, this]
+theorem ws_open_line (care : Bool) (rest : Bytes) : wsGo care .norm (47 :: 47 :: rest) = bump 2 (wsGo care .line rest) := by
+  have : isSpaceC 47 = false := by decide
+  simp [wsGo, this]
+theorem ws_block_step (care : Bool) (c d : UInt8) (rest : Bytes) (h : ¬ (c = 42 ∧ d = 47)) :
+    wsGo care .block (c :: d :: rest) = bump 1 (wsGo care .block (d :: rest)) := by
+  have : (c == 42 && d == 47) = false := by
+    simp only [Bool.and_eq_false_iff, beq_eq_false_iff_ne]
+    by_cases hc : c = 42
+    · exact .inr fun hd => h ⟨hc, hd⟩
+    · exact .inl hc
+  simp [wsGo, this]
+theorem ws_block_close (care : Bool) (rest : Bytes) : wsGo care .block (42 :: 47 :: rest) = bump 2 (wsGo care .norm rest) := by
+  simp [wsGo]
+theorem ws_line_step (care : Bool) (c : UInt8) (rest : Bytes) (h : c ≠ 10) :
+    wsGo care .line (c :: rest) = bump 1 (wsGo care .line rest) := by
+  have : (c == 10) = false := by simpa using h
+  simp [wsGo, this]
+theorem ws_line_close (rest : Bytes) : wsGo false .line (10 :: rest) = bump 1 (wsGo false .norm rest) := by
+  simp [wsGo]
+
+theorem gapOK_c4 (care : Bool) : GapOK care [47,42,99,42,47] := by
+  intro tail
+  simp only [List.cons_append, List.nil_append]
+  rw [ws_open_block, ws_block_step _ _ _ _ (by decide), ws_block_close]
+  simp [bump]
+theorem gapOK_c7 (care : Bool) : GapOK care [47,42,42,47] := by
+  intro tail
+  simp only [List.cons_append, List.nil_append]
+  rw [ws_open_block, ws_block_close]
+  simp [bump]
 theorem gapOK_c8core (care : Bool) : GapOK care [47,42,32,97,42,98,32,47,32,42,32,42,47] := by
-  intro tail; simp [wsGo, bump]
-theorem gapOK_c9core (care : Bool) : GapOK care [47,42,32,120,32,42,47] := by intro tail; simp [wsGo, bump]
+  intro tail
+  simp only [List.cons_append, List.nil_append]
+  rw [ws_open_block, ws_block_step _ _ _ _ (by decide), ws_block_step _ _ _ _ (by decide),
+    ws_block_step _ _ _ _ (by decide), ws_block_step _ _ _ _ (by decide), ws_block_step _ _ _ _ (by decide),
+    ws_block_step _ _ _ _ (by decide), ws_block_step _ _ _ _ (by decide), ws_block_step _ _ _ _ (by decide),
+    ws_block_step _ _ _ _ (by decide), ws_block_close]
+  simp [bump]
+theorem gapOK_c9core (care : Bool) : GapOK care [47,42,32,120,32,42,47] := by
+  intro tail
+  simp only [List.cons_append, List.nil_append]
+  rw [ws_open_block, ws_block_step _ _ _ _ (by decide), ws_block_step _ _ _ _ (by decide),
+    ws_block_step _ _ _ _ (by decide), ws_block_close]
+  simp [bump]
 theorem gapOK_line5 : GapOK false [47,47,99,10] := by
   intro tail
-  cases tail with
-  | nil => simp [wsGo, bump]
-  | cons d r => simp [wsGo, bump]
+  simp only [List.cons_append, List.nil_append]
+  rw [ws_open_line, ws_line_step _ _ _ (by decide), ws_line_close]
+  simp [bump]
 theorem gapOK_line9 : GapOK false [47,47,32,120,10] := by
   intro tail
-  cases tail with
-  | nil => simp [wsGo, bump]
-  | cons d r => simp [wsGo, bump]
+  simp only [List.cons_append, List.nil_append]
+  rw [ws_open_line, ws_line_step _ _ _ (by decide), ws_line_step _ _ _ (by decide), ws_line_close]
+  simp [bump]
 
 theorem gapFlat_ok (care : Bool) (g : Nat) : GapOK care (gapFlat g) := by
   unfold gapFlat
@@ -280,10 +322,10 @@ theorem gapFlat_ok (care : Bool) (g : Nat) : GapOK care (gapFlat g) := by
   · exact gapOK_tab care
   · exact gapOK_c4 care
   · exact gapOK_c4 care
-  · exact gapOK_append (gapOK_sp care) (gapOK_sp care)
+  · simpa using gapOK_append (gapOK_sp care) (gapOK_sp care)
   · exact gapOK_c7 care
-  · exact gapOK_append (gapOK_sp care) (gapOK_append (gapOK_c8core care) (gapOK_sp care))
-  · exact gapOK_append (gapOK_tab care) (gapOK_append (gapOK_c9core care) (gapOK_sp care))
+  · simpa using gapOK_append (gapOK_sp care) (gapOK_append (gapOK_c8core care) (gapOK_sp care))
+  · simpa using gapOK_append (gapOK_tab care) (gapOK_append (gapOK_c9core care) (gapOK_sp care))
 
 theorem gapAny_ok (g : Nat) : GapOK false (gapAny g) := by
   unfold gapAny
@@ -295,9 +337,9 @@ theorem gapAny_ok (g : Nat) : GapOK false (gapAny g) := by
   · exact gapOK_tab false
   · exact gapOK_c4 false
   · exact gapOK_line5
-  · exact gapOK_append (gapOK_sp false) (gapOK_sp false)
+  · simpa using gapOK_append (gapOK_sp false) (gapOK_sp false)
   · exact gapOK_c7 false
-  · exact gapOK_append (gapOK_sp false) (gapOK_append (gapOK_c8core false) (gapOK_sp false))
-  · exact gapOK_append ws_nl (gapOK_append (gapOK_tab false) (gapOK_append gapOK_line9 (gapOK_sp false)))
+  · simpa using gapOK_append (gapOK_sp false) (gapOK_append (gapOK_c8core false) (gapOK_sp false))
+  · simpa using gapOK_append ws_nl (gapOK_append (gapOK_tab false) (gapOK_append gapOK_line9 (gapOK_sp false)))
 
 end Iauthd.Conf
